@@ -74,16 +74,17 @@ def gen_bayes_schedule(seed, k, m, rate):
     if k == 1 or r.coin(0.25):
         if k != 1 and r.coin(0.6):
             sch = {"one_shot": True, "style": "incremental", "perm": r.perm(N), "hows": [r.choice(["hadamard", "multiply"]) for _ in range(N)],
-                   "ufs": [r.coin(0.6) for _ in range(N)], "faults": {}}
+                   "ufs": [r.coin(0.6) for _ in range(N)], "faults": {}, "dens_first": r.coin(0.5)}
             for t in range(1, N):
                 if r.coin(rate):
                     sch["faults"][str(t)] = [gen_fault(r)]
             return sch
-        return {"one_shot": True, "faults": {}}
+        return {"one_shot": True, "faults": {}, "dens_first": bool(k != 1 and r.coin(0.5))}
     Dy = m["y"].shape[1]
     sch = {"perm": r.perm(N), "routes": [r.wchoice(["a", "b", "c"], [2, 2, 1.2]) for _ in range(N)], "faults": {},
            "yperms": [r.perm(Dy) if r.coin(0.5) else None for _ in range(N)], "ufs": [r.coin(0.5) for _ in range(N)],
-           "xperms": [r.perm(m["S0"].shape[0]) if r.coin(0.4) else None for _ in range(N)]}
+           "xperms": [r.perm(m["S0"].shape[0]) if r.coin(0.4) else None for _ in range(N)],
+           "dens_first": r.choice([False, True, "light"])}
     for t in range(1, N):
         if r.coin(rate):
             sch["faults"][str(t)] = [gen_fault(r)]
@@ -134,7 +135,8 @@ def gen_kalman_schedule(seed, k, m, rate):
     sch = {"routes": [r.wchoice(["a", "b", "c"], [2, 2, 1.2]) for _ in range(T)], "faults": {},
            "inplace": [r.coin(0.6) for _ in range(T)],
            "yperms": [r.perm(Dy) if r.coin(0.5) else None for _ in range(T)], "ufs": [r.coin(0.5) for _ in range(T)],
-           "xperms": [r.perm(len(m["m0"])) if r.coin(0.4) else None for _ in range(T)]}
+           "xperms": [r.perm(len(m["m0"])) if r.coin(0.4) else None for _ in range(T)],
+           "dens_first": r.choice([False, True, "light"])}
     for t in range(1, T):
         if r.coin(rate):
             sch["faults"][str(t)] = [gen_fault(r)]
@@ -264,7 +266,7 @@ def _apply_faults(w, post, faults, t, stats, kind="pdf"):
     return w.slots[0].obj
 
 
-def _update(cond_i, prior, y_i, route, Dw, Dy, yperm=None, uf=False, xperm=None):
+def _update(cond_i, prior, y_i, route, Dw, Dy, yperm=None, uf=False, xperm=None, dens_first=False):
     """One Bayesian update of `prior` with observation y_i through `route`; returns (posterior, log predictive).
 
     Route c (likelihood factor): the log predictive carries the K01 offset (Dy-Dw)/2 ln 2pi, accounted for by the caller."""
@@ -273,6 +275,10 @@ def _update(cond_i, prior, y_i, route, Dw, Dy, yperm=None, uf=False, xperm=None)
     if route == "c":
         lik = cond_i.set_y(yj)
         un = prior.multiply(lik, update_full=bool(uf))
+        if dens_first:  # the order of the two read-only queries is part of the schedule
+            post = un.get_density()
+            lp = A(un.log_integral_light() if dens_first == "light" else un.log_integral())[0]
+            return post, lp
         lp = A(un.log_integral())[0]
         return un.get_density(), lp
     if route == "b" and yperm is not None:
@@ -321,8 +327,12 @@ def run_bayes(m, sch, w):
             else:
                 un = un.multiply(lik_i, update_full=bool(sch["ufs"][t]))
             ref.I_coh(un, where=f"bayes incremental step {t}")
-        ev = A(un.log_integral())[0]
-        post = un.get_density()
+        if sch.get("dens_first"):
+            post = un.get_density()
+            ev = A(un.log_integral())[0]
+        else:
+            ev = A(un.log_integral())[0]
+            post = un.get_density()
         w.stats["route.d"] += 1
         return post, ev
     if sch.get("one_shot"):
@@ -330,8 +340,12 @@ def run_bayes(m, sch, w):
         ref.I_coh(prior)
         likp = lik.product()
         un = prior * likp
-        ev = A(un.log_integral())[0]
-        post = un.get_density()
+        if sch.get("dens_first"):
+            post = un.get_density()
+            ev = A(un.log_integral())[0]
+        else:
+            ev = A(un.log_integral())[0]
+            post = un.get_density()
         w.stats["route.c"] += 1
         return post, ev
     ev = 0.0
@@ -341,7 +355,7 @@ def run_bayes(m, sch, w):
         cond_i = cond.slice(jnp.asarray([i]))
         post, lp = _update(cond_i, post, y[i], sch["routes"][t], Dw, Dy,
                            yperm=(sch.get("yperms") or [None] * N)[t], uf=(sch.get("ufs") or [False] * N)[t],
-                           xperm=(sch.get("xperms") or [None] * N)[t])
+                           xperm=(sch.get("xperms") or [None] * N)[t], dens_first=sch.get("dens_first", False))
         ref.envelope(post)
         ref.I_coh(post, where=f"bayes step {t} obs {i} route {sch['routes'][t]}")
         ev += lp
@@ -388,7 +402,7 @@ def run_kalman(m, sch, w):
         pred = trans.affine_marginal_transformation(filt)
         filt, lp = _update(emis, pred, ys[t], sch["routes"][t], Dz, Dy,
                            yperm=(sch.get("yperms") or [None] * T)[t], uf=(sch.get("ufs") or [False] * T)[t],
-                           xperm=(sch.get("xperms") or [None] * T)[t])
+                           xperm=(sch.get("xperms") or [None] * T)[t], dens_first=sch.get("dens_first", False))
         ref.envelope(filt)
         ref.I_coh(filt, where=f"kalman step {t} route {sch['routes'][t]}")
         ev += lp
@@ -514,7 +528,7 @@ def run(seed, tier, prop="C11"):
         digests.append(util.sha_bytes(A(fin[0]), A(fin[1]), np.asarray(fin[2])))
         nontriv = bool(sch.get("one_shot")) or getattr(w, "fired", 0) > 0 or sch.get("perm", None) != sorted(sch.get("perm", [])) or "b" in sch.get("routes", []) or "c" in sch.get("routes", []) or any(sch.get("inplace", []))
         if nontriv:
-            sigs.append(util.sha_bytes(kind, repr(sch.get("perm")), repr(sch.get("routes")), repr(sch.get("inplace")), repr(sch.get("hows")), repr(sch.get("ufs")), repr(sch.get("yperms")), repr(sch.get("xperms")), repr(sorted(sch["faults"].items())),
+            sigs.append(util.sha_bytes(kind, repr(sch.get("perm")), repr(sch.get("routes")), repr(sch.get("inplace")), repr(sch.get("hows")), repr(sch.get("ufs")), repr(sch.get("yperms")), repr(sch.get("xperms")), repr(sch.get("dens_first")), repr(sorted(sch["faults"].items())),
                                        repr([np.shape(m[k2]) for k2 in sorted(m) if hasattr(m[k2], "shape")]), m.get("cond_cls", m.get("trans_cls"))))
         res["known"] = sorted(set(res["known"]) | set(w.known))
     if res["ok"] and len(finals) > 1:
